@@ -1,0 +1,18 @@
+//go:build verif
+
+package config
+
+import (
+	"github.com/keep-network/keep-core/config/network"
+	"github.com/keep-network/keep-core/pkg/bitcoin"
+)
+
+// Verification hook (build tag verif): re-exports existing identifiers only.
+
+func VerifC44ReadPeers(clientNetwork network.Type) ([]string, error) {
+	return readPeers(clientNetwork)
+}
+
+func VerifC44ReadElectrumUrls(n bitcoin.Network) ([]string, error) {
+	return readElectrumUrls(n)
+}
